@@ -3,6 +3,8 @@
 set -u
 P=$1; PROP=$2; TIER=${3:-quick}
 cd /repo && git apply "$P" || { echo "patch does not apply"; exit 3; }
-cd /verif && VERIF_SEED=${VERIF_SEED:-1} ./check $PROP --tier $TIER 2>&1 | grep -v "^  what" | cut -c1-300 | sort | uniq -c | sort -rn | head -${LINES_MAX:-25}
-echo "exit=${PIPESTATUS[0]}"
+cd /verif && VERIF_SEED=${VERIF_SEED:-1} ./check $PROP --tier $TIER > /var/tmp/trymutant.out 2>&1; RC=$?
+grep -c "^DRIFT" /var/tmp/trymutant.out | sed 's/^/drift lines: /'
+grep -v "^DRIFT\|^  what" /var/tmp/trymutant.out | cut -c1-250 | head -${LINES_MAX:-14}
+echo "exit=$RC"
 cd /repo && git checkout -- . && git status --short | head -3
